@@ -29,7 +29,7 @@ TRACK_NUMBERS = {"odd": [3, 9, 10, 42], "desc": [42, 10, 9, 3], "restart": [1, 2
                  "zero": [0, 0, 1, 99]}
 
 
-def make_tracks(positions, opts, first_number=1, numbering="std"):
+def make_tracks(positions, opts, first_number=1, numbering="std", modes=None):
     tracks = []
     for i, (p, (idx, title)) in enumerate(zip(positions, opts)):
         nxt = positions[i + 1] if i + 1 < len(positions) else p + 3
@@ -42,6 +42,8 @@ def make_tracks(positions, opts, first_number=1, numbering="std"):
             indices = [(2, p), (1, second), (7, second)]      # first INDEX line is neither 00 nor 01
         num = first_number + i if numbering == "std" else TRACK_NUMBERS[numbering][i]
         tracks.append({"number": num, "title": (f"TRK {i + 1}" if title else None), "indices": indices})
+        if modes:
+            tracks[-1]["mode"] = modes[i % len(modes)]
     return tracks
 
 
@@ -65,7 +67,7 @@ def run_virtual(case):
     from smpl_extract.cdda.image import CompactDiskAudioImageAdapter
     from smpl_extract.generalized.wav import WavSampleBuilder
     positions, binlen = case["positions"], case["binlen"]
-    tracks = make_tracks(positions, [tuple(o) for o in case["opts"]], numbering=case.get("numbering", "std"))
+    tracks = make_tracks(positions, [tuple(o) for o in case["opts"]], numbering=case.get("numbering", "std"), modes=case.get("modes"))
     lines = [l + "\n" for l in Q.cue_lines("x.bin", tracks)]
 
     def go():
@@ -186,7 +188,7 @@ class Check(CheckBase):
             "thorough) x per-track {one INDEX | INDEX 00+01} x {TITLE | none} under deviation bound 1 x bin length = last "
             "index*2352 + r for r in {0,1,2,3,4,5,2351,2352,2353,4704}, on a virtual position-coded bin through "
             "parse_cue_sheet/from_bin_cue/WAV builder; minute-carry positions 4499/4500/4501; TRACK numbers that are not 1..n in sheet order "
-            "(3/9/10/42, counting down, restarting, first one highest, all equal, 0 and 99) with unusual INDEX numbers; (iii) a subset through real "
+            "(3/9/10/42, counting down, restarting, first one highest, all equal, 0 and 99) with unusual INDEX numbers; the mode keyword spelled audio / Audio / aUDIO per track; (iii) a subset through real "
             ".cue/.bin files and the full ls/export run, incl. sheets of 50, 98 and 99 tracks with 0..700 bytes of ignorable lines per "
             "track (sheets of 3 KB .. 80 KB), and 8 title families whose shape invites special treatment by naming "
             "code (equal, L/R-pair shaped, bare L/R, dotted, unsafe characters, case-only differences, '(2)'-numbered, with and without a '.wav' ending, titles that contain cue keywords such as 'track 2 reprise') judged "
@@ -220,6 +222,13 @@ class Check(CheckBase):
                         for r in (0, 3):
                             cases.append({"kind": "virtual", "positions": list(positions), "opts": [list(o) for o in opts],
                                           "binlen": Q.SECTOR * positions[-1] + r, "numbering": numbering})
+        # the track mode keyword in other spellings (keywords of a cue sheet are not case-sensitive), per track
+        for modes in (["audio"], ["Audio"], ["AUDIO", "audio"], ["Audio", "AUDIO", "aUDIO"]):
+            for k in (1, 2, 3, 4):
+                for positions in list(itertools.combinations(P, k))[::3]:
+                    for opts in ([("one", False)] * k, [("two", True)] * k):
+                        cases.append({"kind": "virtual", "positions": list(positions), "opts": [list(o) for o in opts],
+                                      "binlen": Q.SECTOR * positions[-1] + 3, "modes": modes})
         # minute carry (virtual 10.6 MB bin)
         for positions in ([4499, 4500], [4500, 4501], [0, 4500], [75, 4499, 4501]):
             for r in (0, 3, 2352):
